@@ -25,6 +25,7 @@ import (
 	"fmt"
 	"hash"
 	"math/big"
+	"net/url"
 	"os"
 	"path/filepath"
 	"sort"
@@ -563,7 +564,10 @@ type c04SigReq struct {
 	Path   string `json:"p"`
 	Query  string `json:"q,omitempty"`
 	Body   string `json:"b,omitempty"` // plaintext body
+	Big    int    `json:"big,omitempty"` // >0: the body is Body repeated up to Big bytes
 	ReqURI bool   `json:"ru,omitempty"`
+	RURel  bool   `json:"rurel,omitempty"` // X-Request-Uri is a relative reference (no scheme/host)
+	Fr     string `json:"fr,omitempty"`    // framing: "" exact Content-Length, "chunked" length -1 + non-nil body, "nobody" http.NoBody (empty bodies only)
 	CType  int    `json:"ct,omitempty"`
 	KeyLen int    `json:"kl"`
 	KeySd  int    `json:"ks,omitempty"`
@@ -626,6 +630,34 @@ type c04Wire struct {
 	Signature           string
 	NoHeader            bool
 	RawSecret           string // overrides the encrypted secret when non-empty
+	RURel               bool
+	Framing             string // see c04SigReq.Fr
+	Shape               string // header shape, see c04Shapes
+}
+
+const c04GarbageHeader = "fingerprint=fp-a; secret=QUJDRA==; signature=QUJDRA=="
+
+// c04PlainBody is the body the client means to send.
+func (r c04SigReq) plainBody() []byte {
+	if r.Big <= 0 || r.Body == "" {
+		return []byte(r.Body)
+	}
+	var b []byte
+	for len(b) < r.Big {
+		b = append(b, r.Body...)
+	}
+	return b[:r.Big]
+}
+
+// c04DecodedPath is what the documented scheme signs: the path as the server
+// sees it after percent-decoding (r.URL.Path), while the request line carries the
+// escaped form.
+func c04DecodedPath(escaped string) string {
+	u, err := url.PathUnescape(escaped)
+	if err != nil {
+		return escaped
+	}
+	return u
 }
 
 func c04SignContent(key []byte, ts, method, path, query string, body []byte) string {
@@ -648,27 +680,55 @@ func c04SecretPlain(ver bool, ctype int, key []byte, ts string) string {
 // c04Sign renders a correctly signed request with timestamp ts.
 func c04Sign(r c04SigReq, ts int64) c04Wire {
 	key := c04AesKey(r.KeySd, r.KeyLen)
-	body := []byte(r.Body)
+	body := r.plainBody()
 	if r.CType == 1 && len(body) > 0 {
 		body = []byte(base64.StdEncoding.EncodeToString(c04EcbEncrypt(key, body)))
 	}
 	tss := strconv.FormatInt(ts, 10)
 	w := c04Wire{Method: r.Method, Path: r.Path, Query: r.Query, ReqURI: r.ReqURI, Body: body,
-		Fingerprint: r.Fp, EncKey: r.Fp, URLPath: r.Path, URLQuery: r.Query}
+		Fingerprint: r.Fp, EncKey: r.Fp, URLPath: r.Path, URLQuery: r.Query, RURel: r.RURel, Framing: r.Fr}
 	if r.ReqURI {
 		w.URLPath, w.URLQuery = "/internal/gw", "hop=1"
 	}
 	w.SecretPlain = c04SecretPlain(r.Ver, r.CType, key, tss)
-	w.Signature = c04SignContent(key, tss, r.Method, r.Path, r.Query, body)
+	w.Signature = c04SignContent(key, tss, r.Method, c04DecodedPath(r.Path), r.Query, body)
 	return w
 }
+
+// c04Shapes: ways an (altered) request may present the X-Content-Security
+// header. Only "std" is used for requests that are expected to pass; the other
+// shapes are applied to tampered requests, which must be refused whatever the shape.
+var c04Shapes = []string{"std", "std", "std", "nospace", "reorder", "extra-field", "dup-garbage-first", "dup-garbage-last", "dup-field"}
 
 func (w c04Wire) headerValue() string {
 	secret := w.RawSecret
 	if secret == "" {
 		secret = base64.StdEncoding.EncodeToString(c04RsaEncrypt(c04KeyMaterial.pub[w.EncKey], []byte(w.SecretPlain)))
 	}
-	return strings.Join([]string{"fingerprint=" + w.Fingerprint, "secret=" + secret, "signature=" + w.Signature}, "; ")
+	f, s, g := "fingerprint="+w.Fingerprint, "secret="+secret, "signature="+w.Signature
+	switch w.Shape {
+	case "nospace":
+		return strings.Join([]string{f, s, g}, ";")
+	case "reorder":
+		return strings.Join([]string{g, s, f}, "; ")
+	case "extra-field":
+		return strings.Join([]string{"version=v1", f, "nonce=abc", s, g, ""}, "; ")
+	case "dup-field":
+		// the altered request repeats the signature attribute
+		return strings.Join([]string{f, s, g, g}, "; ")
+	}
+	return strings.Join([]string{f, s, g}, "; ")
+}
+
+// headerValues: the values of the X-Content-Security header lines of the request.
+func (w c04Wire) headerValues() []string {
+	switch w.Shape {
+	case "dup-garbage-last":
+		return []string{w.headerValue(), c04GarbageHeader}
+	case "dup-garbage-first":
+		return []string{c04GarbageHeader, w.headerValue()}
+	}
+	return []string{w.headerValue()}
 }
 
 func (w c04Wire) target() string {
@@ -681,6 +741,9 @@ func (w c04Wire) target() string {
 
 func (w c04Wire) requestURI() string {
 	t := "http://gw.example" + w.Path
+	if w.RURel {
+		t = w.Path
+	}
 	if w.Query != "" {
 		t += "?" + w.Query
 	}
